@@ -581,3 +581,6 @@ def run(rep, programs):
     # failed attempts give back what they took from the tree counters: otherwise free frames become invisible to the searches
     from props import c02
     c02.r_undo(rep, prog)
+    # exhaustion is reported as Error::Memory, the error the fall-through arms of the search continue on
+    from props import c08
+    c08.r_err_kinds(rep, prog)
